@@ -23,6 +23,37 @@ ASSUMPTIONS = [
 CASE_TIMEOUT = {"quick": 600, "thorough": 1800}
 
 
+MATERIAL_CLASSES = ["plain", "mu", "sigma_e", "sigma_m", "diag_all", "full_tensor", "dispersive", "sigma_m_only"]
+
+
+def _material(kind, rng):
+    e = float(rng.uniform(1.5, 4))
+    if kind == "plain":
+        return {"eps": e}
+    if kind == "mu":
+        return {"eps": e, "mu": float(rng.uniform(1.3, 2.5))}
+    if kind == "sigma_e":
+        return {"eps": e, "sig_e": float(rng.uniform(1e4, 5e4))}
+    if kind == "sigma_m":
+        return {"eps": e, "mu": float(rng.uniform(1.3, 2.5)), "sig_m": float(rng.uniform(1e9, 5e9))}
+    if kind == "sigma_m_only":
+        return {"eps": e, "sig_m": float(rng.uniform(1e9, 5e9))}
+    if kind == "diag_all":
+        return {
+            "eps": [float(x) for x in rng.uniform(1.5, 4, size=3)],
+            "mu": [float(x) for x in rng.uniform(1.2, 2.5, size=3)],
+            "sig_e": [float(x) for x in rng.uniform(1e4, 5e4, size=3)],
+            "sig_m": [float(x) for x in rng.uniform(1e9, 5e9, size=3)],
+        }
+    if kind == "full_tensor":
+        from vf.gen import spd_tensor
+
+        return {"eps": spd_tensor(rng), "mu": spd_tensor(rng, 1.0, 2.0, 2.0)}
+    if kind == "dispersive":
+        return {"eps": e, "dispersion": {"poles": [{"kind": "lorentz", "w0": 3e15, "gamma": 2e14, "deps": 0.7}, {"kind": "drude", "wp": 1.0e15, "gamma": 1e14}]}}
+    raise ValueError(kind)
+
+
 def EXHAUSTIVE(tier):
     return True  # the partition table is walked completely up to Tmax (see coverage.partition_Tmax)
 
@@ -34,10 +65,22 @@ def cases(tier, rng):
     per = (tmax + 1 + nblk - 1) // nblk
     for b in range(nblk):
         out.append({"kind": "partition", "t_lo": b * per, "t_hi": min(tmax + 1, (b + 1) * per)})
-    n = 6 if tier == "quick" else 40
+    n = len(MATERIAL_CLASSES) if tier == "quick" else 5 * len(MATERIAL_CLASSES)
     for i in range(n):
         T = int(rng.integers(1, 9 if tier == "quick" else 14))
-        out.append({"kind": "run", "T": T, "variant_seed": int(rng.integers(1 << 30)), "pml": bool(i % 2 == 0)})
+        if i < len(MATERIAL_CLASSES):
+            T = max(T, 3)  # every material array is read by at least two full steps in every tier
+        # the material class is enumerated: every per-cell array the time loop reads (permeability, electric and
+        # magnetic conductivity, tensor tiers, dispersion coefficients) is present in some scene of every tier
+        out.append(
+            {
+                "kind": "run",
+                "T": T,
+                "variant_seed": int(rng.integers(1 << 30)),
+                "pml": bool((i + i // len(MATERIAL_CLASSES)) % 2 == 0),
+                "material": MATERIAL_CLASSES[i % len(MATERIAL_CLASSES)],
+            }
+        )
     # degenerate: T == 1 and k > T-1 rejection
     out.append({"kind": "run", "T": 1, "variant_seed": 1, "pml": True})
     out.append({"kind": "reject", "T": 4})
@@ -100,7 +143,7 @@ def _scene(case):
             k = kinds[int(rng.integers(3))]
             s["faces"][f"min_{a}"] = {"type": k}
             s["faces"][f"max_{a}"] = {"type": k}
-    s["materials"] = [{"lo": [3, 3, 3], "hi": [5, 5, 5], "mat": {"eps": float(rng.uniform(1.5, 4))}}]
+    s["materials"] = [{"lo": [3, 3, 3], "hi": [5, 5, 5], "mat": _material(case.get("material", "plain"), rng)}]
     s["sources"] = [
         {"kind": "dipole", "lo": [3, 4, 3], "polarization": int(rng.integers(3)), "wavelength": 1e-6},
         {"kind": "dipole", "lo": [4, 3, 4], "polarization": int(rng.integers(3)), "wavelength": 0.8e-6, "source_type": "magnetic"},
@@ -152,7 +195,8 @@ def _runs(case, r):
     rng = np.random.default_rng(case["variant_seed"] + 1)
     ref = _run_variant(scene, None, r, "none")
     nontriv = float(np.abs(ref[1]).max()) > 0
-    bsig = ",".join(scene["faces"][f]["type"] for f in ("min_x", "min_y", "min_z"))
+    bsig = ",".join(scene["faces"][f]["type"] for f in ("min_x", "min_y", "min_z")) + "|" + case.get("material", "plain")
+    r.branch("material:" + case.get("material", "plain"))
     variants = []
     cks = sorted({1, 2, T, int(rng.integers(1, T + 1))})
     for c in cks:
@@ -161,7 +205,16 @@ def _runs(case, r):
     for k in ks:
         variants.append((f"reversible:{k}", {"method": "reversible", "num_ckpt_rev": k}))
     for tag, g in variants:
-        got = _run_variant(scene, g, r, tag)
+        if case.get("material") == "dispersive" and g["method"] == "reversible":
+            # the library refuses reversible runs of dispersive scenes (NotImplementedError): an explicit refusal is
+            # not a strategy-dependent result; anything else than that refusal is judged like every other variant
+            try:
+                got = _run_variant(scene, g, r, tag)
+            except NotImplementedError:
+                r.count("reversible_dispersive_refused")
+                continue
+        else:
+            got = _run_variant(scene, g, r, tag)
         sig = (T, tag, bsig) if nontriv else None
         if got[0] != ref[0]:
             r.violate(f"{tag}: final step {got[0]} != {ref[0]}", {"variant": tag, "T": T, "got": got[0], "want": ref[0]})
